@@ -54,7 +54,7 @@ class C03(Prop):
                 'DK.BridgeVec.SDevice_constraints_fun2', 'DK.BridgeVec.SDevice_constraints_fun3',
                 'DK.BridgeVec.SDevice_constraints_fun4', 'DK.BridgeVec.SDevice_constraints_jac4']      # T1v: vector method bodies (vk/translate_vec.py, DK/Lemmas/BridgeVec.lean)
   bridge = bridge_vec + ['DK.BridgeSets.Device_constraints', 'DK.BridgeSets.SDevice_constraints']   # T1s LeafCons: the whole constraint lists
-  rule = ('every atomic class x horizon n (1..8 quick, ..31 thorough) x cumulative-bound form (none, 2-tuple, one 4-tuple whole/sub-range, '
+  rule = ('every atomic class x horizon n (1..8 quick plus 5 % from {12,16,24,25,31,48}; ..60 thorough; 25 % of prices, interior flows and cost parameters are non-dyadic decimals) x cumulative-bound form (none, 2-tuple, one 4-tuple whole/sub-range, '
           'several contiguous, several overlapping, nested; CDevice2 default) x storage (efficiency/sustainment =1 and <1, rate_clip absent / None / scalar k / '
           '(k, None) / (None, k) / (k1, k2) with k1 != k2, reserve 0 and >0; 12 %: parameter changed through its setter after a first read of .constraints) x ADevice user constraints (eq/ineq, with/without jac); probes: interior, box vertices, '
           'exactly on a cumulative limit, 1/64 inside/outside it, outside the box, storage over/under-fill, plus one all-integer flow passed as an INTEGER-typed array; flows presented as (n,) or (1, n); the list taken from the first or the second read of .constraints. non-trivial: >= 1 cumulative '
